@@ -88,9 +88,12 @@ def run_stage(ctx):
                     return p
                 ebb_serial.serial.Serial = factory
                 try:
-                    got = ebb_serial.testPort("/dev/ttyACM0")
+                    with vlib.time_limit(5.0):
+                        got = ebb_serial.testPort("/dev/ttyACM0")
                     res = "port" if got is not None else "None"
                     exc = None
+                except vlib.CallTimeout:
+                    res, exc = "does not return", "CallTimeout"
                 except Exception as ex:  # pylint: disable=broad-except
                     res, exc = "raised", type(ex).__name__
                 probes = made[0].probes if made else 0
@@ -103,7 +106,13 @@ def run_stage(ctx):
             if key not in seen_pins:
                 seen_pins.add(key)
                 port = PinPort(st["pins"])
-                got = ebb_motion.query_enable_motors(port)
+                try:
+                    with vlib.time_limit(5.0):
+                        got = ebb_motion.query_enable_motors(port)
+                except vlib.CallTimeout:                      # an observation stage must not hang the check it rides on
+                    got = ["does not return"]
+                    if sum(1 for o in obs if o.get("real") == got) >= 3:
+                        break
                 if list(got) != list(st["dec"]):
                     obs.append({"stage": "query_enable_motors", "pins": st["pins"], "model": st["dec"], "real": list(got)})
     finally:
